@@ -40,6 +40,8 @@ EventVerdict ==
                     \o (IF E.stepped /\ E.hooked THEN [a \in 1..NA |-> StepV(a)] \o <<TopV>>
                         ELSE IF E.stepped THEN <<"HookEventMissing">>
                         ELSE [a \in 1..NA |-> NoStepV(a)]))
+      [] Prop = "C09" ->       \* only the draw clauses: batches served while the store is being refined (active count grows)
+           FirstBad([a \in 1..NA |-> DrawV(a)])
       [] OTHER -> "UnknownProp"
 
 Init == /\ tid \in 1..Len(Traces) /\ l = 1 /\ viol = "ok"
